@@ -225,7 +225,7 @@ theorem rebased_logged {t0 cur : Table} {T T' : Txn} {A : List Addr} (hb : WellB
   refine ⟨fun _ => ⟨by rw [hr.ids]; exact hb.nodup, ?_, by rw [hr.newId]; exact hb.newId⟩, ?_⟩
   · intro u' hu' hnr
     obtain ⟨c, hc, hext, _⟩ := hr.s3 u' hu' hnr
-    exact ⟨c, hc, hext⟩
+    exact ⟨c, hc, .inl hext⟩
   · intro hk
     rw [hr.kind] at hk
     rcases hb.kind with h | h <;> rw [h] at hk <;> cases hk
